@@ -97,6 +97,8 @@ def run_xh(ob: Ob):
     m = msgs[0]
     if any(s in ("POST_FAIL", "EXEC_ERR", "POST_ERR", "PRE_INVALID", "SYNTAX_ERR") for s in states):
         bad = [x for x in msgs if x.state.name in ("POST_FAIL", "EXEC_ERR", "POST_ERR", "PRE_INVALID", "SYNTAX_ERR")][0]
+        if "HarnessInconclusive" in bad.message:
+            return result(ob, "inconclusive", detail=f"outside the stand-ins' vocabulary: {bad.message}"[:400], **base)
         return result(ob, "candidate", detail=f"{bad.state.name}: {bad.message}"[:600], cex=parse_cex(bad.message), **base)
     if all(s == "CONFIRMED" for s in states):
         # vacuity: the twin must be refutable
